@@ -169,9 +169,9 @@ package priority
 //@   requires [*] WF(dsc)
 //@   modifies content(dsc.tactic)
 //@   ensures [* C01] result ==> msum(dsc.tactic) == vacants
-//@   assume-arith add-overflow[2]
 //@   loop 0
 //@     invariant [*] picked == msum(dsc.tactic)
+//@     invariant [*] no-wrap: picked <= msumR(dsc.strategic, pset(dsc.priorities, $i))
 //@     invariant [*] forall j :: $i <= j && j < len(dsc.priorities) ==> dsc.tactic[dsc.priorities[j]] == 0
 
 //@ func (*Discipline).updateUncrowded
